@@ -40,6 +40,8 @@ def cases(rng, tier):
             yield Case(["q region " + sq, "q specregion " + sq], {"kind": "boundary-length"})
     for _k in range(60 if tier == "quick" else 600):
         N5 = rng.choice([1009, 1013, 1983, 1997, 2017, 2999, 3001, 4999]) if rng.random() < 0.5 else rng.randint(1001, 5000)
+        if _k % 6 == 0:
+            N5 = rng.choice([14257, 20017, 30011, 50021])       # one residue is a relative step of 2-7e-5 here
         num, den = rng.choice([(1, 4), (7, 20)])
         c = N5 * num // den + rng.choice([0, 1])
         if rng.random() < 0.5:
